@@ -38,6 +38,27 @@ permit(principal, action, resource) when { decimal("1.5").lessThan(decimal("2.5"
 forbid(principal, action, resource) when { principal.hasTag("blocked") && principal.getTag("blocked") == true };
 `
 
+// bigPolicies: literal collections and a policy count beyond the sizes at which an index, a
+// memo or a sorted copy built lazily on first use would pay off (such a cache is shared by
+// every request that evaluates the policy).
+func bigPolicies() string {
+	var ents, acts, nums, keys []string
+	for i := 0; i < 70; i++ {
+		ents = append(ents, fmt.Sprintf(`G::"x%d"`, i))
+		acts = append(acts, fmt.Sprintf(`Action::"a%d"`, i))
+		nums = append(nums, fmt.Sprint(i-3))
+		keys = append(keys, fmt.Sprintf(`k%d: %d`, i, i))
+	}
+	var sb strings.Builder
+	fmt.Fprintf(&sb, "permit(principal, action, resource) when { principal in [%s, G::\"g3\"] && resource in [%s] };\n", strings.Join(ents, ", "), strings.Join(ents, ", "))
+	fmt.Fprintf(&sb, "permit(principal, action in [%s, Action::\"view\"], resource) when { [%s].contains(context.n) && [%s].containsAll([context.n, 1]) };\n", strings.Join(acts, ", "), strings.Join(nums, ", "), strings.Join(nums, ", "))
+	fmt.Fprintf(&sb, "forbid(principal, action, resource) when { {%s}.k3 == context.n || [%s].containsAny([principal, resource]) || \"%s\" like \"*y*\" };\n", strings.Join(keys, ", "), strings.Join(ents, ", "), strings.Repeat("x", 300))
+	for i := 0; i < 64; i++ {
+		fmt.Fprintf(&sb, "forbid(principal == U::\"nobody%d\", action, resource);\n", i)
+	}
+	return sb.String()
+}
+
 const schemaText = `
 entity G in [G];
 entity U in [G] { dept: String, roles: Set<String> } tags Bool;
@@ -81,9 +102,13 @@ func uid(t, id string) types.EntityUID {
 	return types.NewEntityUID(types.EntityType(t), types.String(id))
 }
 
-func newShared() (*shared, error) {
+func newShared(big ...bool) (*shared, error) {
 	s := &shared{}
-	ps, err := cedar.NewPolicySetFromBytes("shared.cedar", []byte(policyDoc))
+	doc := policyDoc
+	if len(big) > 0 && big[0] {
+		doc += bigPolicies()
+	}
+	ps, err := cedar.NewPolicySetFromBytes("shared.cedar", []byte(doc))
 	if err != nil {
 		return nil, err
 	}
@@ -350,6 +375,28 @@ func immutabilityFamily() *core.Family {
 	}
 }
 
+// the same on inputs with large literal collections and many policies; the digest is compared
+// at the seams and at the end of every operation (it is too large to recompute at every
+// function entry).
+func largeInputsFamily() *core.Family {
+	return &core.Family{
+		Name:   "immutability-of-large-inputs",
+		Desc:   fmt.Sprintf("each of %d read-only operations alone and twice in a row on a policy set with 70-member literal sets in scope and conditions, a 70-key record literal, a 300-character pattern subject and 73 policies: the deep digest of all shared inputs and package-level variables compared after the first run, at every seam and at the end", len(ops)),
+		N:      int64(len(ops)),
+		Serial: true,
+		Run: func(t *core.T, i int64) {
+			s, err := newShared(true)
+			if err != nil {
+				t.Fail("harness-shared-inputs", "", "", err.Error())
+				return
+			}
+			solo := soloResults(t, s)
+			explore(t, s, solo, [][]int{{int(i)}, {int(i)}}, 0, false, "2x "+ops[i].name+" (large inputs, no preemption, seams)")
+			t.Nontrivial()
+		},
+	}
+}
+
 func scheduleFamily(bound int, entryPoints bool, three bool) *core.Family {
 	// pairs of operations on two threads (and triples on three)
 	var combos [][][]int
@@ -446,7 +493,7 @@ func lastLine(s string) string {
 
 // RacePass is the body of the -race binary.
 func RacePass() int {
-	s, err := newShared()
+	s, err := newShared(true)
 	if err != nil {
 		fmt.Println("harness:", err)
 		return 2
@@ -532,9 +579,9 @@ func Check() *core.Check {
 		},
 		Families: func(tier string) []*core.Family {
 			if tier == "thorough" {
-				return []*core.Family{scanFamily(), immutabilityFamily(), scheduleFamily(2, false, true), scheduleFamily(1, true, true), raceFamily()}
+				return []*core.Family{scanFamily(), immutabilityFamily(), largeInputsFamily(), scheduleFamily(2, false, true), scheduleFamily(1, true, true), raceFamily()}
 			}
-			return []*core.Family{scanFamily(), immutabilityFamily(), scheduleFamily(2, false, false), raceFamily()}
+			return []*core.Family{scanFamily(), immutabilityFamily(), largeInputsFamily(), scheduleFamily(2, false, false), raceFamily()}
 		},
 	}
 }
